@@ -197,6 +197,16 @@ def schedules(fam):
         steps += [{"op": "reply", "t": "access", "pick": 3, "out": "deny", "settle": True}] * 4 + [Q]
         out.append(S(fam, "many", steps))
     if fam.startswith("thr-reset"):
+        # a connection closes while its own throttled access request is outstanding and the service answers afterwards:
+        # the answer must still release the next waiting request, for every connection left
+        cs4 = ["c%d" % i for i in range(1, 5)]
+        steps4 = []
+        for c in cs4:
+            steps4 += [opn(c), dict(sub(c, "e"), settle=True)]
+        steps4 += [Q, {"op": "reset", "res": [], "acc": ["e"], "settle": True}, {"op": "close", "c": "@req", "settle": True}]
+        steps4 += [{"op": "reply", "t": "access", "pick": 0, "settle": True}] * 5 + [Q, ev("e", "custom"), Q]
+        out.append(S(fam, "closeholder", steps4))
+    if fam.startswith("thr-reset"):
         # a query resource loses its last subscriber while its re-fetch waits in the reset throttle: whatever the
         # gateway does with that re-fetch, the requests queued behind it must still be sent
         st2 = dict(settle=True)
